@@ -14,6 +14,20 @@ pub fn check(r: &Runner, ctx: &mut Ctx, l: &mut Local, rec: &CaseRec) -> Result<
     if rec.sub == "memcheck" {
         return check_memcheck_case(r, l, rec);
     }
+    if rec.sub == "memcheck-hang" {
+        let name = rec.bufs.first().map(|b| String::from_utf8_lossy(b).to_string()).unwrap_or_else(|| "runtime".into());
+        if let Some(v) = super::p_variants::VARIANTS.iter().find(|v| v.name == name) {
+            if let Ok(bin) = super::p_variants::build_variant(v) {
+                let mut one = rec.clone();
+                one.bufs.clear();
+                if let Ok(false) = native_returns(&bin, &[one], &format!("replay{}", std::process::id()), 30) {
+                    return Err(Violation::new("C01/non-termination", format!("production vdigest build `{}`: the parse of this case does not return within 30 s", name), rec));
+                }
+            }
+        }
+        r.account(l, rec, true, "memcheck-hang replay");
+        return Ok(());
+    }
     if rec.sub == "total-history" {
         // a history on one reused value: only "no call panics" is C01's business here
         return match super::p_hist::check(r, ctx, l, rec) {
@@ -96,22 +110,87 @@ pub const RAMP_BASES: [(&[u8], Entry, u8); 10] = [
     (b"HTTP/1.0 404 Not Found\r\nA: b\r\nC: d\r\nE: f\r\nG: h\r\nI: j\r\n\r\n", Entry::RespCfgUninit, C_IGNORE_RESP),
 ];
 
+/// Wait for a child with a time budget, keeping the stall monitor quiet meanwhile.
+/// Ok(None) = the budget expired and the child was killed.
+fn wait_budget(mut child: std::process::Child, secs: u64) -> Result<Option<std::process::Output>, String> {
+    use std::io::Read;
+    // stderr is drained on a thread so that a chatty child cannot block on a full pipe
+    let mut errpipe = child.stderr.take();
+    let reader = std::thread::spawn(move || {
+        let mut s = Vec::new();
+        if let Some(p) = errpipe.as_mut() {
+            let _ = p.read_to_end(&mut s);
+        }
+        s
+    });
+    let t0 = std::time::Instant::now();
+    loop {
+        match child.try_wait() {
+            Ok(Some(st)) => {
+                let stderr = reader.join().unwrap_or_default();
+                return Ok(Some(std::process::Output { status: st, stdout: vec![], stderr }));
+            }
+            Ok(None) => {
+                if t0.elapsed().as_secs() > secs {
+                    let _ = child.kill();
+                    let _ = child.wait();
+                    let _ = reader.join();
+                    return Ok(None);
+                }
+                crate::engine::PROGRESS.fetch_add(1, std::sync::atomic::Ordering::Relaxed);
+                std::thread::sleep(std::time::Duration::from_millis(20));
+            }
+            Err(e) => return Err(e.to_string()),
+        }
+    }
+}
+
+/// Run the variant natively (no valgrind) on the cases: Ok(true) = it returned, Ok(false) =
+/// it did not return within `secs` (the whole corpus normally takes milliseconds).
+fn native_returns(bin: &std::path::Path, cases: &[CaseRec], tag: &str, secs: u64) -> Result<bool, String> {
+    let dir = format!("{}/target/c01", crate::verif_dir());
+    let _ = std::fs::create_dir_all(&dir);
+    let corpus = format!("{}/native-{}.bin", dir, tag);
+    super::p_variants::write_corpus(&corpus, cases);
+    let child = std::process::Command::new(bin)
+        .arg("--exact")
+        .arg(&corpus)
+        .stdout(std::process::Stdio::null())
+        .stderr(std::process::Stdio::piped())
+        .spawn()
+        .map_err(|e| e.to_string());
+    let res = match child {
+        Ok(c) => wait_budget(c, secs).map(|o| o.is_some()),
+        Err(e) => Err(e),
+    };
+    let _ = std::fs::remove_file(&corpus);
+    res
+}
+
 fn memcheck_run(bin: &std::path::Path, cases: &[CaseRec], tag: &str) -> Result<(Option<i32>, String), String> {
     let dir = format!("{}/target/c01", crate::verif_dir());
     let _ = std::fs::create_dir_all(&dir);
     let corpus = format!("{}/memcheck-{}.bin", dir, tag);
     super::p_variants::write_corpus(&corpus, cases);
-    let out = std::process::Command::new("valgrind")
+    let child = std::process::Command::new("valgrind")
         .args(["--tool=memcheck", "-q", "--error-exitcode=9", "--redzone-size=128", "--leak-check=no", "--undef-value-errors=no"])
         .arg(bin)
         .arg("--exact")
         .arg(&corpus)
         .stdout(std::process::Stdio::null())
-        .output();
+        .stderr(std::process::Stdio::piped())
+        .spawn()
+        .map_err(|e| e.to_string());
+    let out = match child {
+        Ok(c) => wait_budget(c, crate::engine::env_u64("VERIF_MEMCHECK_BUDGET_S", 600)),
+        Err(e) => Err(e),
+    };
     let _ = std::fs::remove_file(&corpus);
     match out {
-        Ok(o) => Ok((o.status.code(), String::from_utf8_lossy(&o.stderr).to_string())),
-        Err(e) => Err(e.to_string()),
+        Ok(Some(o)) => Ok((o.status.code(), String::from_utf8_lossy(&o.stderr).to_string())),
+        // a time budget hit is inconclusive, never a violation
+        Ok(None) => Err("valgrind memcheck run exceeded its time budget".into()),
+        Err(e) => Err(e),
     }
 }
 
@@ -205,6 +284,27 @@ fn memcheck_phase(r: &Runner) {
                         return;
                     }
                 };
+                // native pre-pass: a build variant whose parse does not return (an endless
+                // scanner loop in a compile-time backend, say) is found here, bisected to
+                // one case, and reported as non-termination
+                if let Ok(false) = native_returns(&bin, cases, name, 30) {
+                    let (mut lo, mut hi) = (0usize, cases.len());
+                    while hi - lo > 1 {
+                        let mid = (lo + hi) / 2;
+                        if let Ok(false) = native_returns(&bin, &cases[lo..mid], &format!("{}-bisect", name), 10) {
+                            hi = mid;
+                        } else {
+                            lo = mid;
+                        }
+                    }
+                    // confirm the single case with a generous budget
+                    if let Ok(false) = native_returns(&bin, &cases[lo..lo + 1], &format!("{}-confirm", name), 30) {
+                        results.lock().unwrap().push((name.to_string(), Ok((Some(-77), String::new())), Some(lo)));
+                    } else {
+                        results.lock().unwrap().push((name.to_string(), Err("the variant did not return on the corpus within 30 s, but no single case reproduces it".into()), None));
+                    }
+                    return;
+                }
                 let res = memcheck_run(&bin, cases, name);
                 let mut culprit = None;
                 if memcheck_bad(&res) {
@@ -228,6 +328,16 @@ fn memcheck_phase(r: &Runner) {
         match res {
             Ok((Some(0), _)) => {
                 r.stats.hist.lock().unwrap().insert(format!("memcheck clean: vdigest variant {}", name), cases.len() as u64);
+            }
+            Ok((Some(-77), _)) => {
+                let mut rec = cases[culprit.unwrap_or(0)].clone();
+                rec.sub = std::borrow::Cow::Borrowed("memcheck-hang");
+                rec.bufs = vec![name.as_bytes().to_vec()];
+                r.report(Violation::new(
+                    "C01/non-termination",
+                    format!("production vdigest build `{}`: the parse of this case did not return within 30 s in a fresh process (it normally takes microseconds)", name),
+                    &rec,
+                ));
             }
             Ok((code, err)) => {
                 if memcheck_bad(&Ok((code, err.clone()))) {
